@@ -665,11 +665,17 @@ C02.manifest = {
             "WrongMethod/NodeNotFound/EdgeNotFound exactly as specified; both are symmetric in their arguments on undirected "
             "graphs for any relation between name order and insertion order; get_out/in_edges_for_node and get_edges_for_node "
             "are permutations of the edges of get_all_edges leaving / entering / touching the node (directed self-loop once). "
-            "The remaining queries (node-set variants, neighbour/successor/predecessor lists, BFS) are tied to the model by the "
+            "get_successor_nodes / get_predecessor_nodes / get_neighbor_nodes succeed on every node and list, duplicate-free, "
+            "exactly the nodes joined by a stored group; the adjacency query of the searches (get_successors_or_neighbors) "
+            "lists exactly the nodes one step away along an edge of get_all_edges (C02_successors_or_neighbors); "
+            "breadth_first_search(x) from any node RETURNS, x first, no node twice, exactly the nodes reachable from x along "
+            "the edges of get_all_edges (against them too on an undirected graph), and from an absent name the unwrap fails "
+            "(C02_breadth_first_search, C02_breadth_first_search_absent). "
+            "The remaining queries (the *_for_nodes node-set variants) are tied to the model by the "
             "correspondence and recomputed from the public node/edge lists by an independent oracle on every generated history.",
-    "note": "Axioms: none. Partial: the successor/predecessor/neighbour node queries, the *_for_nodes variants and BFS have a "
-            "faithful model and per-case validation but no unbounded theorem yet (their index clauses wf_sm/wf_pm/wf_su/wf_pr ARE "
-            "proved invariant). Defect F3 (directed self-loop listed twice) repaired by a fix: commit.",
+    "note": "Axioms: none. Partial: only the *_for_nodes variants have a faithful model and per-case validation but no "
+            "unbounded theorem yet. BFS is still ALSO compared per case (model vs code, and the oracle's own reachability). "
+            "Defect F3 (directed self-loop listed twice) repaired by a fix: commit.",
     "technique": "Coq proof: queries = functions of the abstract graph under the WF invariant + correspondence",
 }
 
